@@ -404,6 +404,12 @@ pub fn twin_pairs(kp: u32) -> Arc<Vec<(u32, u32)>> {
     v
 }
 
+/// LT degree d of the encoding symbol with id `esi` of a K-symbol block (Deg[v] of RFC 6330 5.3.5.2)
+pub fn lt_degree(pr: &Params, esi: u32) -> u32 {
+    let isi = if esi < pr.k { esi } else { esi + (pr.kp - pr.k) };
+    tuple(pr, isi).0
+}
+
 /// twin pairs as encoding symbol ids of a K-symbol block
 pub fn twin_esis(k: u32, n: usize, pick: &mut dyn FnMut(usize) -> usize) -> Vec<(u32, u32)> {
     let pr = params(k);
